@@ -23,7 +23,7 @@
 (***************************************************************************)
 EXTENDS Extend, TLC
 
-CONSTANTS T, MaxDist, Lvs, Bias, Seeded, TSet, MaxCalls, Worlds, Problems,
+CONSTANTS T, MaxDist, Lvs, Bias, Seeded, TSet, MaxCalls, Worlds, Problems, Region,
           ValidateRoots, RestoreRng, SetupUsesPlannerRng, TakeAfterChecks
 
 VARIABLES valid, probs, pd, trees, acc, pc, now, deadline, rng, src, thr, res, route, ncalls, hist
@@ -112,7 +112,7 @@ GrowChoices == IF Len(trees[1]) < Len(trees[2]) THEN {1}
 Iterate(kind, q, a, nearA, nearB) ==
   /\ pc = "loop" /\ now <= deadline
   /\ kind \in Kinds
-  /\ q \in (IF kind = "g" THEN probs[pd].goal ELSE Pts(T))
+  /\ q \in (IF kind = "g" THEN probs[pd].goal ELSE Region)
   /\ a \in GrowChoices
   /\ nearA \in ArgMin(T, trees[a], q)
   /\ LET b  == 3 - a
@@ -170,6 +170,14 @@ IsLink(a, b) ==
      \/ (trees[t][i].s = a /\ trees[t][trees[t][i].p].s = b)
 C03_PathFollowsLinks ==
   IsOk => \A k \in 1 .. (Len(res.path) - 1) : IsLink(res.path[k], res.path[k + 1])
+\* (a zero-arity constant definition: TLC evaluates it once)
+RegionConvex == Convex(T, Region)
+C04_InRegion ==
+  (RegionConvex /\ pd # 0 /\ probs[pd].start \in Region /\ probs[pd].goal \subseteq Region)
+     => \A t \in 1 .. 2 : \A i \in 1 .. Len(trees[t]) : trees[t][i].s \in Region
+\* witness (expected violated when Region is not convex): the abstract form of the SO(2) seam defect
+W_AlwaysInRegion ==
+  (pd # 0 /\ probs[pd].start \in Region /\ probs[pd].goal \subseteq Region) => \A t \in 1 .. 2 : \A i \in 1 .. Len(trees[t]) : trees[t][i].s \in Region
 C05_Step ==
   /\ \A t \in 1 .. 2 : \A i \in NonRoot(t) : D(T, trees[t][trees[t][i].p].s, trees[t][i].s) <= MaxDist
   /\ IsOk => \A k \in 1 .. (Len(res.path) - 1) : D(T, res.path[k], res.path[k + 1]) <= MaxDist
